@@ -23,6 +23,20 @@ def vocabularies(tier, rnd):
     syl = [a + b for a in "bdfgklmnprstvz" for b in "aeiou"]
     out.append(("syll", sorted(set((rnd.choice(syl) + rnd.choice(syl) + rnd.choice(["", rnd.choice(syl)])).encode() for _ in range(600)))))
     out.append(("digits13", sorted(set("".join(rnd.choice("0123456") for _ in range(rnd.randint(3, 19))).encode() for _ in range(13)))))
+    # codewords longer than 16 bits (subtree branch of the decoding table): a few hundred kB of skewed text plus bytes that occur
+    # once or twice; the strings holding the rare bytes are the ones that decode through a subtree
+    for nn in ([20000] if tier == "quick" else [20000, 40000, 80000]):
+        r2 = random.Random(nn)
+        al = b"abcde"
+        w = [16, 8, 4, 2, 1]
+        S = set()
+        while len(S) < nn:
+            S.add(bytes(r2.choices(al, weights=w, k=r2.randint(6, 22))))
+        S = sorted(S)
+        for j, rare in enumerate((0xE9, 0xF1, 0x7A, 0x21)):
+            t = S[(j + 1) * len(S) // 6]
+            S.append(t[:len(t) // 2] + bytes([rare]) + t[len(t) // 2:])
+        out.append(("skewrare%d" % nn, sorted(set(S))))
     nrand = 6 if tier == "quick" else 40
     for i in range(nrand):
         sigma = rnd.choice([3, 5, 8, 12, 20, 36])
@@ -46,6 +60,8 @@ def gen(tier, seed):
         if len(S) < 2:
             continue
         bs = [2, 3, 4, 5, 6, 7, 8, 13, 16, 32] if (tier != "quick" or name in ("num10000", "num1000")) else rnd.sample([2, 3, 4, 5, 6, 7, 8, 13, 16, 32], 4)
+        if name.startswith("skewrare"):
+            bs = [8, 64] if tier == "quick" else [2, 8, 64, 256]
         for kind in FC:
             for b in bs:
                 cmds = D.build_cmds(S, kind, [str(b)]) + ["save d i", "load r i generic 1", "locall r", "free d", "free r"]
